@@ -81,7 +81,9 @@ pub struct RecWordWrite<W: HWord> {
 
 impl<W: HWord> RecWordWrite<W> {
     pub fn new(cap_words: Option<usize>) -> (Self, SharedWriteLog) {
-        let log = Rc::new(RefCell::new(WriteLog { budget: u64::MAX, ..Default::default() }));
+        // default: a generous cumulative bound, so that a runaway write becomes a logical-step
+        // verdict (budget panic) instead of a wall-clock one
+        let log = Rc::new(RefCell::new(WriteLog { budget: 1 << 20, ..Default::default() }));
         (Self { log: log.clone(), cap_words, _m: Default::default() }, log)
     }
 }
